@@ -133,6 +133,7 @@ func (c *Collection) findView(ctx context.Context, q queryable, designDoc string
 		return
 	}
 
+	verifLock(&c.mutex, "view.find")
 	c.mutex.Lock()
 	defer c.mutex.Unlock()
 
